@@ -70,6 +70,28 @@ func (env *Env) evalCall(x *ast.CallExpr, st *State) Val {
 				b := env.eval(x.Args[2], st)
 				ty := arithType(a, b)
 				return Val{T: ite(cnd, env.coerce(a, ty, st).T, env.coerce(b, ty, st).T), Ty: ty}
+			case "fresh":
+				v := env.eval(x.Args[0], st)
+				c := env.c
+				c.decls.declConst("alloc0", "(Array Int Bool)")
+				if env.callerSide {
+					// at a call site: the callee's result is a new object
+					for _, o := range c.freshList {
+						st.assume(fmt.Sprintf("(distinct %s %s)", v.T, o))
+					}
+					c.freshList = append(c.freshList, v.T)
+					c.freshRefs[v.T] = true
+					return boolVal(and(fmt.Sprintf("(> %s 0)", v.T), fmt.Sprintf("(not (select alloc0 %s))", v.T)))
+				}
+				var alts []string
+				for _, f := range c.freshList {
+					alts = append(alts, eq(v.T, f))
+				}
+				return boolVal(or(alts...))
+			case "same":
+				a := env.eval(x.Args[0], st)
+				b := env.eval(x.Args[1], st)
+				return boolVal(eq(a.T, env.coerce(b, a.Ty, st).T))
 			case "has":
 				m := env.eval(x.Args[0], st)
 				k := env.eval(x.Args[1], st)
@@ -241,16 +263,14 @@ func (env *Env) convert(v Val, to types.Type, st *State, pos token.Pos) Val {
 	if sf == "Str" && strings.HasPrefix(stt, "Sl_") {
 		c.strAxioms()
 		fn := "str_bytes"
+		c.bytesAxioms(stt)
 		c.decls.declFun(fn, []string{"Str"}, stt)
-		c.decls.axiom(fn, fmt.Sprintf("(forall ((s Str)) (! (= (len_%s (%s s)) (str_len s)) :pattern ((%s s))))", stt, fn, fn))
+		c.decls.axiom(fn, fmt.Sprintf("(forall ((s Str)) (! (and (= (len_%s (%s s)) (str_len s)) (= (bytes_str (%s s)) s)) :pattern ((%s s))))", stt, fn, fn, fn))
 		return Val{T: app(fn, v.T), Ty: to}
 	}
 	if strings.HasPrefix(sf, "Sl_") && stt == "Str" {
-		c.strAxioms()
-		fn := "bytes_str"
-		c.decls.declFun(fn, []string{sf}, "Str")
-		c.decls.axiom(fn, fmt.Sprintf("(forall ((b %s)) (! (= (str_len (%s b)) (len_%s b)) :pattern ((%s b))))", sf, fn, sf, fn))
-		return Val{T: app(fn, v.T), Ty: to}
+		c.bytesAxioms(sf)
+		return Val{T: app("bytes_str", v.T), Ty: to}
 	}
 	if sf == "Int" && stt == "Real" {
 		return Val{T: app("to_real", v.T), Ty: to}
@@ -330,6 +350,9 @@ func (env *Env) evalQuant(kind string, x *ast.CallExpr, st *State) Val {
 			}
 		}
 		if mentions {
+			if strings.Contains(ex, "alloc0") && strings.Contains(ex, "(select ((as const") {
+				continue // allocation facts about elements of constant arrays are noise
+			}
 			st.assumeOnce(fmt.Sprintf("(forall (%s) %s)", strings.Join(binders, " "), ex))
 		} else {
 			st.assumeOnce(ex)
@@ -864,6 +887,7 @@ func (env *Env) applyContract(fi *FuncInfo, recv *Val, args []Val, st *State, ca
 		results = append(results, sub.havoc(st, "r_"+fi.Obj.Name(), sig.Results().At(i).Type()))
 	}
 	post := c.contractEnv(fi, old, bind, results, ts)
+	post.callerSide = true
 	for _, en := range con.Ensures {
 		st.assume(post.evalBool(en.Expr, st))
 	}
@@ -916,6 +940,16 @@ func (env *Env) havocFrame(fi *FuncInfo, m string, ce *Env, st *State) {
 			if sty.Field(i).Name() == fn {
 				ft = sty.Field(i).Type()
 			}
+		}
+		if ft == nil {
+			if gt := ce.ghostFieldType(ref.Ty, fn); gt != nil {
+				ft = gt
+				key = ssort + ".$" + fn
+			}
+		}
+		if ft == nil {
+			c.unsupported("modifies %q: no such field", m)
+			continue
 		}
 		srt := ce.sortOf(ft)
 		h := ce.heapTerm(st, key, srt)
@@ -1317,11 +1351,15 @@ func (env *Env) havocGuarded(recv Val, st *State) {
 					h := env.heapTerm(st, key, env.sortOf(sty.Field(i).Type()))
 					nv := env.havoc(st, "unstable_"+f, sty.Field(i).Type())
 					st.heap[key] = app("store", h, recv.T, nv.T)
+					// the caller's own transition starts from the state the callee observed
+					if c.inlineTag == "" && c.entry != nil && !c.lockedOnce[recv.T+"."+mu] && !env.contract {
+						c.entry.heap[key] = st.heap[key]
+					}
 				}
 			}
 		}
 		for _, inv := range ts.LockInv[mu] {
-			e2 := &Env{c: c, fn: env.fn, pkg: env.pkg, contract: true, bound: map[string]Val{"self": recv}, tsubst: env.tsubst, noSafety: true}
+			e2 := &Env{c: c, pkg: &pkgRef{info: ts.Pkg.TypesInfo, types: ts.Pkg.Types, files: ts.Pkg.Syntax}, contract: true, bound: map[string]Val{"self": recv}, tsubst: env.tsubst, noSafety: true}
 			st.assume(e2.evalBool(inv.Expr, st))
 		}
 	}
